@@ -61,7 +61,7 @@ func (e *Engine) newCtx(fn *ssa.Function, spec *FuncSpec, mode string) *FnCtx {
 		eng: e, sc: sc, ty: NewTypes(sc), fn: fn, spec: spec, mode: mode,
 		assumed: map[string]bool{}, unmodelled: map[string]bool{}, inlined: map[string]bool{},
 		obSeq: map[string]int{}, ghostDecl: map[string]bool{}, maxDepth: 8,
-		nonNil: map[string]bool{}, ranges: map[string]*rangeState{}, lastCall: map[string]Val{}, sliceLen: map[string]string{}, intUB: map[string]int{}, guardOf: map[string]string{}, guardSub: map[string]*guardInfo{}, constCell: map[string]Val{}, writeOnce: map[string]bool{}, trackArgT: map[string]types.Type{}, freshMsgs: map[string]string{},
+		nonNil: map[string]bool{}, ranges: map[string]*rangeState{}, lastCall: map[string]Val{}, sliceLen: map[string]string{}, intUB: map[string]int{}, guardOf: map[string]string{}, guardSub: map[string]*guardInfo{}, constCell: map[string]Val{}, writeOnce: map[string]bool{}, trackArgT: map[string]types.Type{}, trackResT: map[string]*types.Tuple{}, freshMsgs: map[string]string{},
 	}
 	return c
 }
@@ -376,7 +376,7 @@ func (e *Engine) VerifyLemma(lm *LemmaSpec) *FnReport {
 	rep := &FnReport{Name: strings.TrimPrefix(strings.TrimPrefix(lm.Pkg, e.module+"/"), "pkg/") + ".lemma." + lm.Name}
 	for pass := 0; pass < 4; pass++ {
 		sc := NewScript()
-		c := &FnCtx{eng: e, sc: sc, ty: NewTypes(sc), assumed: map[string]bool{}, unmodelled: map[string]bool{}, inlined: map[string]bool{}, obSeq: map[string]int{}, ghostDecl: map[string]bool{}, nonNil: map[string]bool{}, ranges: map[string]*rangeState{}, lastCall: map[string]Val{}, sliceLen: map[string]string{}, intUB: map[string]int{}, guardOf: map[string]string{}, guardSub: map[string]*guardInfo{}, constCell: map[string]Val{}, writeOnce: map[string]bool{}, trackArgT: map[string]types.Type{}, freshMsgs: map[string]string{}}
+		c := &FnCtx{eng: e, sc: sc, ty: NewTypes(sc), assumed: map[string]bool{}, unmodelled: map[string]bool{}, inlined: map[string]bool{}, obSeq: map[string]int{}, ghostDecl: map[string]bool{}, nonNil: map[string]bool{}, ranges: map[string]*rangeState{}, lastCall: map[string]Val{}, sliceLen: map[string]string{}, intUB: map[string]int{}, guardOf: map[string]string{}, guardSub: map[string]*guardInfo{}, constCell: map[string]Val{}, writeOnce: map[string]bool{}, trackArgT: map[string]types.Type{}, trackResT: map[string]*types.Tuple{}, freshMsgs: map[string]string{}}
 		rep.ctx = c
 		err := func() (err error) {
 			defer func() {
@@ -455,7 +455,7 @@ func (c *FnCtx) assumeAxioms(env *Env, pkg string) {
 	}
 }
 
-func (e *Engine) ghostEntry(c *FnCtx, fr *Frame, st *State)            {}
+func (e *Engine) ghostEntry(c *FnCtx, fr *Frame, st *State)          {}
 func (e *Engine) ghostExit(c *FnCtx, fr *Frame, st *State, env *Env) {}
 
 var _ = types.Typ
@@ -495,6 +495,9 @@ func (c *FnCtx) prescanTracked(fn *ssa.Function, spec *FuncSpec, depth int, seen
 			}
 			if name == "" || !tracked(name) {
 				continue
+			}
+			if _, seen := c.trackResT[name]; !seen {
+				c.trackResT[name] = cc.Signature().Results()
 			}
 			for _, a := range cc.Args {
 				ats = append(ats, a.Type())
